@@ -216,6 +216,9 @@ def run(tier, seed, procs=16):
                 items.append((z, local - timedelta(hours=lead), lead + 8, seed))
         items.append((z, datetime(2025, 6, 1), 24, seed))
         items.append((z, datetime(2025, 1, 1, 5), 7, seed))
+    # periods longer than a year: two changes of each kind inside one series
+    for z in ("Europe/Paris", "America/New_York", "Australia/Lord_Howe", "Africa/Casablanca") + (("America/Sao_Paulo", "Europe/London", "Pacific/Chatham", "Asia/Tehran") if tier == "thorough" else ()):
+        items.append((z, datetime(2025, 3, 28), 24 * 368, seed)); items.append((z, datetime(2024, 10, 20, 7), 24 * 375, seed))
     res = H.run_parallel(_case, items, procs)
     # zones combined on one UTC time line: same offsets at both ends of the period but different change dates, identical calendars,
     # a zone without changes, fractional offsets; whole years and short windows
